@@ -8,7 +8,9 @@ EXTENDS ZLogger
 
 (* A configuration is a sequence of logger sections                        *)
 (*   [kind : "eventlog" | "logger", name, level, prop, hs : Seq([cls, level, delay])]                            *)
-(* cls in {"stream", "file", "rot", "timed"}.                              *)
+(* cls in {"stream", "file", "rot", "timed"} for <logfile> sections, and   *)
+(* "syslog", "http", "smtp" for <syslog>, <http-logger>, <email-notifier>: *)
+(* handlers without a file, which the reopen registry never sees.          *)
 CONSTANTS Configs, MaxOps
 
 FileLike == {"file", "rot", "timed"}
@@ -40,7 +42,7 @@ NewHandlers(f) ==
   IF hs = <<>> THEN <<[cls |-> "null", level |-> 0, delay |-> FALSE, open |-> FALSE, alive |-> TRUE, shut |-> FALSE,
                        sec |-> <<f, 0>>]>>
   ELSE [j \in DOMAIN hs |-> [cls |-> hs[j].cls, level |-> hs[j].level, delay |-> hs[j].delay,
-                             open |-> (hs[j].cls = "stream" \/ ~hs[j].delay),
+                             open |-> (hs[j].cls = "stream" \/ (hs[j].cls \in FileLike /\ ~hs[j].delay)),
                              alive |-> TRUE, shut |-> FALSE, sec |-> <<f, j>>]]
 
 CallFactory(f) ==
